@@ -18,6 +18,7 @@ MAX_STATES = 6
 PLANAR_BOX = 50.0  # |w.u| above which float32 softplus in the planar projection saturates
 PLANAR_WU_MIN = -10.0  # below this the margin softplus(w.u) ~ e^(w.u) approaches float32 resolution next to 1
 RAW_BOX = 50.0  # the property's raw-parameter box
+HUGE_LOSS = 1e12  # |batch loss| above which float32 gradient overflow (not NaN branches) is the expected outcome
 
 
 def _crashed(result):
@@ -736,6 +737,11 @@ def oracle_c18(world, result):
         if p_fin and np.isnan(loss):
             V.append({"clause": "c18.loss_nan", "detail": f"step {s['t']}: parameters finite but the batch loss is NaN (fault row in batch: {le[li]['has_fault_row']})"})
             break
+        if p_fin and np.isfinite(loss) and abs(loss) > HUGE_LOSS:
+            # astronomically large but finite loss: its true gradient may exceed float32 range;
+            # overflow is not the branch-selection defect the property is about
+            P["vacuous_huge_loss"] = P.get("vacuous_huge_loss", 0) + 1
+            continue
         if p_fin and np.isfinite(loss):
             n_poison_checked += 1
             if le[li]["has_fault_row"]:
@@ -763,7 +769,7 @@ def oracle_c18(world, result):
     P["poison_checks"] = n_poison_checked
     P["sig_fault_hit"] = int(P.get("finite_loss_with_fault_row", 0) > 0)
     # end-to-end: if no batch loss was ever non-finite, nothing may be non-finite at the end
-    if all(np.isfinite(e["value"]) for e in le) and steps:
+    if all(np.isfinite(e["value"]) and abs(e["value"]) <= HUGE_LOSS for e in le) and steps:
         import jax
 
         rm = result["ret_model"]
